@@ -84,7 +84,8 @@ def spec_trace(events, start=(False, ())):
 
 
 # ---- rendering --------------------------------------------------------------
-SHAPES = ['one', 'multi', 'compound', 'decorated', 'want', 'string', 'decoclass', 'decoclass1', 'decorated1', 'asyncdef']
+SHAPES = ['one', 'multi', 'compound', 'decorated', 'want', 'string', 'decoclass', 'decoclass1', 'decorated1', 'asyncdef',
+          'compound_comment', 'multi_comment', 'compound_comment_last']
 
 
 def render_stmt(shape, k, dirs):
@@ -96,6 +97,12 @@ def render_stmt(shape, k, dirs):
         return ['>>> w%d = [t(%d),' % (k, k), '...       0]%s' % c], []
     if shape == 'compound':
         return ['>>> if True:%s' % c, '...     z%d = t(%d)' % (k, k)], []
+    if shape == 'compound_comment':       # a comment-only line inside the statement that carries the inline directive
+        return ['>>> for i%d in range(1):%s' % (k, c), '...     # an explanatory comment', '...     z%d = t(%d)' % (k, k)], []
+    if shape == 'multi_comment':
+        return ['>>> w%d = [t(%d),%s' % (k, k, c), '...       # about the second element', '...       0]'], []
+    if shape == 'compound_comment_last':
+        return ['>>> if True:', '...     # a comment line first', '...     z%d = t(%d)%s' % (k, k, c)], []
     if shape == 'decorated':
         return ['>>> @tr(%d)%s' % (k, c), '... def f%d():' % k, '...     pass'], []
     if shape == 'decoclass':
